@@ -9,22 +9,6 @@ import CoseModel.Generated.Facts
 open CoseModel
 namespace C17
 
-/-- the algorithm identifiers the decision tables use are those of the source -/
-theorem facts_algorithms :
-    Facts.consts.lookup "AlgorithmPS256" = some (-37) ∧ Facts.consts.lookup "AlgorithmPS384" = some (-38) ∧
-    Facts.consts.lookup "AlgorithmPS512" = some (-39) ∧ Facts.consts.lookup "AlgorithmES256" = some (-7) ∧
-    Facts.consts.lookup "AlgorithmES384" = some (-35) ∧ Facts.consts.lookup "AlgorithmES512" = some (-36) ∧
-    Facts.consts.lookup "AlgorithmEdDSA" = some (-8) ∧ Facts.consts.lookup "AlgorithmReserved" = some 0 ∧
-    Facts.consts.lookup "AlgorithmRS256" = some (-257) ∧ Facts.consts.lookup "AlgorithmRS384" = some (-258) ∧
-    Facts.consts.lookup "AlgorithmRS512" = some (-259) := by decide
-
-/-- the hash table of the source: PS256/ES256 → SHA-256, …384 → SHA-384, …512 → SHA-512 -/
-theorem facts_hash_table :
-    Facts.hashTable = [("AlgorithmPS256", "crypto.SHA256"), ("AlgorithmES256", "crypto.SHA256"),
-      ("AlgorithmSHA256", "crypto.SHA256"), ("AlgorithmPS384", "crypto.SHA384"), ("AlgorithmES384", "crypto.SHA384"),
-      ("AlgorithmSHA384", "crypto.SHA384"), ("AlgorithmPS512", "crypto.SHA512"), ("AlgorithmES512", "crypto.SHA512"),
-      ("AlgorithmSHA512", "crypto.SHA512")] := by decide
-
 def keyFits (alg : Int) (verifier : Bool) : KeyKind → Bool
   | .rsa bits => familyOf alg = .rsaPss && bits ≥ 2048
   | .ecdsa ok => familyOf alg = .ecdsa && (!verifier || ok)
